@@ -98,7 +98,7 @@ def h_eq_iff(d: bool):
             return finish(False, 'library lookup disagrees with identity', c1, m1, c2, m2, o2)
         # interchangeable with the canonical name as a plain string
         s1 = str(g1)
-        if not (g1 == s1 and s1 == g1 and (s1 in lib) and lib[s1] == {'p': 1}):
+        if not (g1 == s1 and s1 == g1 and not (g1 != s1) and not (s1 != g1) and (s1 in lib) and lib[s1] == {'p': 1}):
             return finish(False, 'group is not interchangeable with its canonical name')
         if (g2 == s1) != same:
             return finish(False, 'comparison with a canonical string disagrees with identity')
